@@ -135,6 +135,10 @@ func parserKeywords(c *core.Ctx) map[string]string {
 			return ""
 		}
 		if n, ok := types.Unalias(fn.Signature.Results().At(0).Type()).(*types.Named); ok && n.Obj().Pkg() != nil && n.Obj().Pkg().Path() == pkgDirectives {
+			// an error value of the directives package is not a directive
+			if errT, ok := types.Universe.Lookup("error").Type().Underlying().(*types.Interface); ok && (types.Implements(n, errT) || types.Implements(types.NewPointer(n), errT)) {
+				return ""
+			}
 			return n.Obj().Name()
 		}
 		return ""
@@ -933,6 +937,15 @@ func RuleFCells(c *core.Ctx) {
 		}
 	}
 	sort.Strings(cells)
+	contentFree := map[string]bool{}
+	for _, n := range tp.Scope().Names() {
+		if tn, ok := tp.Scope().Lookup(n).(*types.TypeName); ok {
+			if st, ok := tn.Type().Underlying().(*types.Struct); ok && st.NumFields() == 0 {
+				contentFree["table."+n] = true
+			}
+		}
+	}
+	measures := cellMeasures(p)
 	// every dispatch over the cell types is exhaustive: a type switch on a value of
 	// type cell anywhere in the package covers every type that implements cell; a
 	// role implemented as a method of the cell interface is exhaustive by the type
@@ -971,6 +984,8 @@ func RuleFCells(c *core.Ctx) {
 			key := fmt.Sprintf("table.%s:case %s", sn, cell)
 			if _, ok := have[cell]; ok {
 				c.Ob(rule, key, fn.Pos(), core.FuncName(fn), core.Discharged, "handled")
+			} else if measures[fn] && contentFree[cell] {
+				c.Ob(rule, key, fn.Pos(), core.FuncName(fn), core.Discharged, "a cell type without fields has no content to measure: width 0 by the function's default")
 			} else {
 				c.Ob(rule, key, fn.Pos(), core.FuncName(fn), core.Violated, "cell type "+cell+" has no case in "+sn+": such cells are measured as width 0 / rendered as an error, so rows lose their alignment or the report fails")
 			}
@@ -1323,7 +1338,26 @@ func RuleFWidthUnit(c *core.Ctx) {
 			if val == nil || val.Referrers() == nil {
 				return
 			}
-			for _, r := range *val.Referrers() {
+			// the content also where it has been merged with other strings (a phi of
+			// "the text to measure")
+			var refs []ssa.Instruction
+			seenPhi := map[ssa.Value]bool{}
+			var collect func(v ssa.Value)
+			collect = func(v ssa.Value) {
+				if seenPhi[v] || v.Referrers() == nil {
+					return
+				}
+				seenPhi[v] = true
+				for _, r := range *v.Referrers() {
+					if ph, ok := r.(*ssa.Phi); ok {
+						collect(ph)
+						continue
+					}
+					refs = append(refs, r)
+				}
+			}
+			collect(val)
+			for _, r := range refs {
 				use, bad := "", false
 				switch u := r.(type) {
 				case *ssa.Call:
